@@ -478,7 +478,16 @@ func (p *queryPlan) addSpecifiedData(ctx context.Context, r table.Row, cls *sema
 	}
 
 	p.tbl.AddBindings(tbl.Bindings())
-	if tbl.NumRows() == 0 && cls.Optional {
+	// Only keep the retrieved rows that agree with the current row on all the
+	// bindings they share. Not all shared bindings can be used to specialize
+	// the clause before fetching the data (e.g. ID, TYPE or AT aliases).
+	var nrs []table.Row
+	for _, nr := range tbl.Rows() {
+		if compatibleRows(r, nr) {
+			nrs = append(nrs, nr)
+		}
+	}
+	if len(nrs) == 0 && cls.Optional {
 		nr := make(table.Row)
 		for _, k := range tbl.Bindings() {
 			if _, ok := r[k]; !ok {
@@ -488,10 +497,37 @@ func (p *queryPlan) addSpecifiedData(ctx context.Context, r table.Row, cls *sema
 		p.tbl.AddRow(table.MergeRows([]table.Row{r, nr}))
 		return nil
 	}
-	for _, nr := range tbl.Rows() {
+	for _, nr := range nrs {
 		p.tbl.AddRow(table.MergeRows([]table.Row{r, nr}))
 	}
 	return nil
+}
+
+// compatibleRows returns true if both rows have the same value for all the
+// bindings they share.
+func compatibleRows(r1, r2 table.Row) bool {
+	for k, c2 := range r2 {
+		c1, ok := r1[k]
+		if !ok {
+			continue
+		}
+		if c1 == nil || c2 == nil {
+			if c1 != c2 {
+				return false
+			}
+			continue
+		}
+		if c1.T != nil && c2.T != nil {
+			if !c1.T.Equal(*c2.T) {
+				return false
+			}
+			continue
+		}
+		if !reflect.DeepEqual(c1, c2) {
+			return false
+		}
+	}
+	return true
 }
 
 // specifyClauseWithTable runs the clause, but it specifies it further based on
